@@ -30,5 +30,6 @@ DerivOK == LET D == Derive({<<"S">>}, {<<"S">>}, 2, 8)
            IN W \subseteq Lang(G, 4)     \* every terminal form reached by rewriting is in the fixpoint language
 EmptyOK == IsEmptyLang(G) <=> (Lang(G, 4) = {})
 NullOK == ("S" \in NullVars(G)) <=> (<<>> \in Lang(G, 0))
+TrimOK == Lang(TrimG(G), 4) = Lang(G, 4)
 FiniteOK == IsFiniteLang(G) <=> ({ w \in Lang(G, 2 * MaxBody * MaxBody + 2) : Len(w) > MaxBody * MaxBody } = {})
 =============================================================================
